@@ -188,8 +188,33 @@ func (e *Engine) declPure(full string, depth int) bool {
 	return pure
 }
 
+// wbEntry is a pending copy-out of an interior pointer &x.f that was passed to
+// a call through a temporary cell.
+type wbEntry struct {
+	ref   string
+	lhs   ast.Expr
+	t     types.Type
+	depth int
+}
+
 func (v *FnV) call(st *State, call *ast.CallExpr) []Value {
-	return v.callWithArgs(st, call, nil)
+	v.callDepth++
+	nframes := len(v.frames)
+	out := v.callWithArgs(st, call, nil)
+	// copy-out of interior pointers created for this call
+	if len(v.frames) == nframes {
+		keep := v.wb[:0]
+		for _, w := range v.wb {
+			if w.depth == v.callDepth && !st.dead {
+				v.assignTo(st, w.lhs, Value{T: w.t, S: v.load(st, w.t, w.ref)})
+			} else if w.depth < v.callDepth {
+				keep = append(keep, w)
+			}
+		}
+		v.wb = keep
+	}
+	v.callDepth--
+	return out
 }
 
 // resultTypes of a call expression.
@@ -698,7 +723,30 @@ func (v *FnV) contractCallSig(st *State, call *ast.CallExpr, fc *FuncContract, n
 	old := st.fork()
 	if !fc.Pure {
 		v.escapeClosures(st, args)
-		st.havocAllHeaps()
+		if mods := fc.Extra["modifies"]; len(mods) > 0 {
+			// frame: only the listed cells (*p for pointer parameters p) change;
+			// the callee's body is checked against the same frame
+			na := v.c.freshName("alloc")
+			st.declare(na, "Int")
+			st.assume(sGe(na, st.alloc))
+			st.alloc = na
+			for _, p := range modifiedParams(mods) {
+				pv, ok := vars[p]
+				if !ok {
+					sfail("modifies *%s: no such parameter of %s", p, fc.FullName())
+				}
+				pt, ok := pv.T.Underlying().(*types.Pointer)
+				if !ok {
+					sfail("modifies *%s: not a pointer", p)
+				}
+				et := v.substT(pt.Elem())
+				h := st.heap(heapName(et), "(Array Int "+v.c.sortOf(et)+")")
+				nv := st.freshVal("mod", et)
+				st.setHeap(heapName(et), sStore(h, pv.S, nv.S))
+			}
+		} else {
+			st.havocAllHeaps()
+		}
 		v.yieldShared(st)
 	}
 	var results []Value
